@@ -2588,10 +2588,13 @@ func (r *Resolver) isZoneSecure(ctx context.Context, qname string, parentDS []dn
 // label above. Without this the genuine "sub is an insecure delegation" proof
 // let a bare, unsigned NXDOMAIN for `sub DS` through in the signed parent.
 func insecureProofName(q dns.Question) string {
-	if q.Qtype == dns.TypeDS {
-		if i, end := dns.NextLabel(q.Name, 0); !end {
-			return q.Name[i:]
+	if q.Qtype == dns.TypeDS && q.Name != rootzone {
+		i, end := dns.NextLabel(q.Name, 0)
+		if end {
+			// A single label: the parent side of that cut is the root.
+			return rootzone
 		}
+		return q.Name[i:]
 	}
 	return q.Name
 }
